@@ -38,6 +38,7 @@ class Ob:
     workers: int = 8
     max_paths: int = 400000
     must_cover: tuple = ()
+    witnesses: int = 0               # path witnesses replayed concretely (plain ints, real code)
     # xh
     module: str | None = None
     fn: str | None = None
@@ -146,7 +147,8 @@ class Report:
 def _run_pathex(ob: Ob, known, rep: Report):
     blocker = make_blocker(known, ob.name)
     st = pathex.explore(ob.harness, timeout=ob.timeout, max_paths=ob.max_paths,
-                        workers=ob.workers, blockers=[blocker], reset=ob.reset)
+                        workers=ob.workers, blockers=[blocker], reset=ob.reset,
+                        keep_samples=max(4, ob.witnesses))
     res = {"obligation": ob.name, "engine": "pathex", "deciding": ob.deciding,
            "paths": st["paths"], "infeasible_prefixes": st["infeasible"],
            "decisions": st["decisions"], "queries": st["queries"],
@@ -214,6 +216,28 @@ def _run_pathex(ob: Ob, known, rep: Report):
             rep.known_hits.setdefault(e["id"], (e, cex, ob.name))
         else:
             rep.violations.append((ob, cex))
+    # witness bridge: one model per sampled path, re-run with plain Python values (no proxies,
+    # no stubs that exist only for symbolic runs); must agree with the symbolic verdict
+    wit_ok = 0
+    if ob.witnesses and not st["cex"]:
+        for s in st["samples"][:ob.witnesses]:
+            try:
+                failed, _c = pathex.replay(ob.harness, s["model"], ob.reset)
+            except Exception as e:
+                problems.append("witness replay raised %s: %s" % (type(e).__name__, str(e)[:300]))
+                continue
+            if failed:
+                cex = {"label": failed[0]["label"], "model": s["model"], "facts": failed[0]["facts"],
+                       "info": failed[0]["info"], "found_by": "concrete witness replay"}
+                e = match_known(known, ob.name, cex)
+                if e is not None:
+                    rep.known_hits.setdefault(e["id"], (e, cex, ob.name))
+                else:
+                    rep.violations.append((ob, cex))
+            elif failed is not None:
+                wit_ok += 1
+        rep.validated += wit_ok
+    res["witness_replays_agreeing"] = wit_ok
     if problems:
         if ob.deciding:
             rep.errors.extend("%s: %s" % (ob.name, p) for p in problems)
